@@ -74,11 +74,11 @@ PvRead(st) == IF st.pvset = 1 THEN st.pvval ELSE st.child.value
 \* was still linked becomes a value of its own on the copy (equal to what it read as).  The statement speaks of equal
 \* values, not of links: modelled as the code does it.  Pickling carries the __dict__: linked stays linked.
 IsPickle(kind) == kind \in {"p0", "p1", "p2", "p3", "p4", "p5"}
-CopiedAs(st, kind) == IF IsPickle(kind) THEN Copied(st) ELSE [Copied(st) EXCEPT !.pvset = 1, !.pvval = PvRead(st)]
+CopiedAs(st, kind, haspv) == IF IsPickle(kind) \/ haspv = 0 THEN Copied(st) ELSE [Copied(st) EXCEPT !.pvset = 1, !.pvval = PvRead(st)]
 \* Named deviation (known finding C14/F22): pickling, deep copying and clone_traits carry the VALUE of a trait added with
 \* add_trait but not the trait: on the copy the name is an ordinary, unvalidated attribute
 KF22Guard(pre) == pre.hasx = 1
-Copied_KF22(st, kind) == [CopiedAs(st, kind) EXCEPT !.hasx = 0]
+Copied_KF22(st, kind, haspv) == [CopiedAs(st, kind, haspv) EXCEPT !.hasx = 0]
 \* ... and clone_traits(copy="deep") does not carry the value either (the name is not a trait of the copy at all)
-Copied_KF22_deep(st, kind) == [CopiedAs(st, kind) EXCEPT !.hasx = 0, !.xval = 0]
+Copied_KF22_deep(st, kind, haspv) == [CopiedAs(st, kind, haspv) EXCEPT !.hasx = 0, !.xval = 0]
 =============================================================================
